@@ -12,7 +12,7 @@ use refimpl as r;
 use refimpl::{Mode, SignOut, MODES};
 use serde_json::json;
 
-const RULE: &str = "for keys (generated; serialise/deserialise round-tripped; structure-aware hostile encodings that deserialisation accepts: arbitrary rho/K/tr, s1/s2 at range ends, t0 unrelated to the key; plus a rejection-heavy class with t0 partly at the range extremes that needs tens to thousands of rejection iterations so that the 16-bit ExpandMask counter crosses its byte boundaries) x message/context shapes x 4 modes x rnd classes: bytes returned by try_sign_with_rng/try_hash_sign_with_rng under a replaying RNG must equal the reference ML-DSA.Sign/HashML-DSA.Sign computed from the sk *bytes*; the RNG log must be exactly one try_fill_bytes(32); the same call repeated on another thread at another stack depth must return the same bytes; 60 ACVP sigGen vectors via _internal_sign. Non-trivial = distinct (key, message, ctx, mode, rnd) whose reference execution had at least one rejection iteration.";
+const RULE: &str = "for keys (generated; serialise/deserialise round-tripped; structure-aware hostile encodings that deserialisation accepts: arbitrary rho/K/tr, s1/s2 at range ends, t0 unrelated to the key; plus a rejection-heavy class with t0 partly at the range extremes that needs tens to thousands of rejection iterations so that the 16-bit ExpandMask counter crosses its byte boundaries) x message/context shapes x 4 modes x rnd classes: bytes returned by try_sign_with_rng/try_hash_sign_with_rng under a replaying RNG must equal the reference ML-DSA.Sign/HashML-DSA.Sign computed from the sk *bytes*; the RNG log must be exactly one try_fill_bytes(32); the same call repeated on another thread at another stack depth must return the same bytes; 60 ACVP sigGen vectors via _internal_sign. Volume: 30 000 / 600 000 signatures per set (a quarter in the checked build) under accepted keys whose t0 consists of a few monomials with values around beta and 2*beta (a fresh key every 8 signatures) compared with the reference byte for byte; fixtures/bnd (inputs found by an instrumented-reference search in which ||c t0|| meets gamma2 exactly, the hint weight is omega+1, or the accepted candidate is one below those bounds) are replayed. Non-trivial = distinct (key, message, ctx, mode, rnd) whose reference execution had at least one rejection iteration.";
 
 pub fn run(ctx: &Ctx) -> StageOut {
     let mut acc = Acc::new();
@@ -149,7 +149,7 @@ fn run_set<S: PS>(ctx: &Ctx) -> Acc {
             2 => ("hostile-random", gen::hostile_sk(&mut g, p, SPat::Random, T0Pat::Random)),
             _ => {
                 let sp = *g.pick(&[SPat::AllMinus, SPat::AllPlus, SPat::Alternating, SPat::Zero, SPat::Random, SPat::NttSparse]);
-                let tp = *g.pick(&[T0Pat::Zero, T0Pat::Random, T0Pat::AllTop, T0Pat::AllBottom, T0Pat::NttSparse]);
+                let tp = *g.pick(&[T0Pat::Zero, T0Pat::Random, T0Pat::AllTop, T0Pat::AllBottom, T0Pat::NttSparse, T0Pat::SparseSmall, T0Pat::SparseSmall]);
                 ("hostile-extremal", gen::hostile_sk(&mut g, p, sp, tp))
             }
         };
@@ -238,6 +238,76 @@ fn run_set<S: PS>(ctx: &Ctx) -> Acc {
     });
     for a in accs {
         acc.merge(a);
+    }
+    // ---- volume on keys whose c*t0 takes small exact values: t0 made of a few monomials with values around
+    // beta and 2*beta. Every coefficient comparison that involves c*t0 (MakeHint's bucket edges, masks or
+    // shortcuts keyed on |c*t0|) then sits on or next to its boundary at tau positions per monomial, in every
+    // signature; with honest keys such coincidences have probability ~1e-7 per signature.
+    let n_small = ctx.budget(30_000, 600_000) as usize / if ctx.checked_build() { 4 } else { 1 };
+    let shards = 64usize;
+    let accs = par_map(shards, |sh| {
+        let mut acc = Acc::new();
+        let mut g = Prng::derive(ctx.seed, &format!("c03-smallt0-{}", p.name), sh as u64);
+        let mut cur: Option<(S::Sk, Vec<u8>)> = None;
+        for it in 0..n_small / shards {
+            if it % 8 == 0 {
+                let s1: Vec<r::Poly> = (0..p.l).map(|_| gen::s_poly(&mut g, p.eta, SPat::Random)).collect();
+                let s2: Vec<r::Poly> = (0..p.k).map(|_| gen::s_poly(&mut g, p.eta, SPat::Random)).collect();
+                let t0 = gen::t0_sparse_small(&mut g, p);
+                let b = r::sk_encode(p, &g.bytes(32), &g.bytes(32), &g.bytes(64), &s1, &s2, &t0);
+                cur = match guarded(|| S::sk_from(&b)) {
+                    Ok(Ok(o)) => Some((o, b)),
+                    _ => None,
+                };
+            }
+            let Some((sk_obj, sk_bytes)) = cur.as_ref() else { continue };
+            let m = g.bytes(10);
+            let rnd = g.arr32();
+            // lean comparison: bytes against the reference (the full monitored check only on a mismatch)
+            let mp = r::format_message(Mode::Pure, &m, &[]).unwrap();
+            let want = r::sign_internal(p, sk_bytes, &mp, &rnd);
+            let got = sign_replay::<S>(sk_obj, &m, &[], Mode::Pure, &rnd);
+            acc.eval();
+            match (got, want) {
+                (Ok((Ok(sig), _)), Some(w)) if sig == w => {
+                    acc.count("small_t0_signatures_match", 1);
+                    acc.distinct_enumerated += 1;
+                }
+                _ => check_sign::<S>(&mut acc, "small-t0-volume", sk_obj, sk_bytes, &m, &[], Mode::Pure, &rnd, false),
+            }
+        }
+        acc
+    });
+    for a in accs {
+        acc.merge(a);
+    }
+    // ---- fixtures/bnd: signing inputs (found by `vh bndsearch` with the instrumented reference) whose
+    // rejection loop meets ||c t0|| = gamma2 exactly (only at -gamma2 / also at +gamma2), hint weight
+    // omega + 1, or accepts a candidate one below those bounds
+    let fx = crate::props::bnd::fixtures(ctx, S::SET);
+    for (event, sk_bytes, m, rnd) in &fx {
+        let Ok(Ok(sk_obj)) = guarded(|| S::sk_from(sk_bytes)) else { continue };
+        // the fixture must still show its event under the reference (else it is stale: say so)
+        r::events_reset();
+        let mp = r::format_message(Mode::Pure, m, &[]).unwrap();
+        let _ = r::sign_internal_capped(p, sk_bytes, &mp, rnd, 4000);
+        let e = r::events_take();
+        let seen = match event.as_str() {
+            "ct0-exact-neg" => e.lone_exact_ct0_neg,
+            "ct0-exact-pos" => e.lone_exact_ct0_pos,
+            "hint-omega-plus-1" => e.lone_exact_hint,
+            "accepted-ct0-gamma2-minus-1" => e.accept_ct0_gamma2_minus_1,
+            _ => e.accept_hint_omega,
+        };
+        if seen == 0 {
+            acc.inconclusive(format!("fixtures/bnd: a {event} fixture no longer shows its event under the reference"));
+            continue;
+        }
+        acc.count(&format!("boundary_fixture_{event}"), 1);
+        check_sign::<S>(&mut acc, &format!("boundary-fixture-{event}"), &sk_obj, sk_bytes, m, &[], Mode::Pure, rnd, false);
+    }
+    if p.set == 44 && !fx.iter().any(|f| f.0.starts_with("ct0-exact")) {
+        acc.inconclusive("fixtures/bnd has no ML-DSA-44 input with ||c t0|| exactly gamma2 (run `vh bndsearch`)".into());
     }
     acc
 }
